@@ -211,6 +211,28 @@ Definition attr_set (p : path) (a : str) (c : codec) (k : akind) (v : pyval) (s 
 (** one attribute declaration of an element class, as recovered by the translator *)
 Record attr_decl := { ad_attr : str; ad_row : N; ad_kind : akind; ad_codec : codec }.
 
+(** * getter expressions *)
+Inductive gexp :=
+| GConst (r : res pyval)
+| GIfAbsent (p : path) (d k : gexp)            (* the child at p is None ? d : k *)
+| GAttr (p : path) (a : str) (c : codec) (k : akind)
+| GPresent (p : path)                          (* child is not None, as a bool *)
+| GMap (f : pyval -> res pyval) (g : gexp)
+| GOrElse (g h : gexp).                        (* g if it is not None, else h *)
+
+Fixpoint eval (g : gexp) (s : st) : res pyval :=
+  match g with
+  | GConst r => r
+  | GIfAbsent p d k => if present p s then eval k s else eval d s
+  | GAttr p a c k => attr_get p a c k s
+  | GPresent p => Ok (PBool (present p s))
+  | GMap f g' => match eval g' s with Ok v => f v | Err e => Err e end
+  | GOrElse g' h => match eval g' s with
+                    | Ok PNone => eval h s
+                    | r => r
+                    end
+  end.
+
 (** * setter programs *)
 Inductive cond :=
 | CNone                       (* value is None *)
@@ -261,11 +283,18 @@ Inductive step :=
 | SDelAttr (p : path) (a : str)
 | SWith (f : aval -> res aval) (x : step).     (* x on a value derived from the assigned one *)
 
+(** a reading that a setter keeps (placeholder geometry, _InheritsDimensions._set_dimension):
+    [kp_own] the object's own value, [kp_inh] what is read instead while the own value is None,
+    [kp_wr] the straight-line setter that makes a value the own one *)
+Record keep := { kp_own : gexp; kp_inh : gexp; kp_wr : list step }.
+
 Inductive prog :=
 | Done
 | Raise (e : pyerr)
 | Seq (s : step) (k : prog)
-| If (c : cond) (th el : prog).
+| If (c : cond) (th el : prog)
+| Keep (rs : list keep) (k : prog).  (* read, in order, the inherited value of every listed reading that has
+                                        no own value; then k; then write, in order, those that are not None *)
 
 Definition nonroot (p : path) : bool := match p with [] => false | _ => true end.
 
@@ -303,6 +332,58 @@ Fixpoint do_step (x : step) (v : aval) (s : st) : st * res aval :=
                   end
   end.
 
+(** a straight-line list of steps *)
+Fixpoint run_steps (xs : list step) (v : aval) (s : st) : st * res aval :=
+  match xs with
+  | [] => (s, Ok v)
+  | x :: r => match do_step x v s with
+              | (s', Ok v') => run_steps r v' s'
+              | (s', Err e) => (s', Err e)
+              end
+  end.
+Fixpoint seqs (xs : list step) (k : prog) : prog :=
+  match xs with
+  | [] => k
+  | x :: r => Seq x (seqs r k)
+  end.
+
+(** the readings to keep: for each listed reading in order, the own value is read (an exception
+    propagates); only when it is None the inherited value is read (likewise) and remembered, None
+    included; nothing is written *)
+Definition kept_of (s : st) (r : keep) : res (list (list step * pyval)) :=
+  match eval (kp_own r) s with
+  | Err e => Err e
+  | Ok PNone => match eval (kp_inh r) s with
+                | Err e => Err e
+                | Ok x => Ok [(kp_wr r, x)]
+                end
+  | Ok _ => Ok []
+  end.
+Fixpoint collect (rs : list keep) (s : st) : res (list (list step * pyval)) :=
+  match rs with
+  | [] => Ok []
+  | r :: rest => match kept_of s r with
+                 | Err e => Err e
+                 | Ok l => match collect rest s with
+                           | Err e => Err e
+                           | Ok l' => Ok (l ++ l')
+                           end
+                 end
+  end.
+(** the remembered values that are not None are assigned in order; the first refusal ends it *)
+Fixpoint write_back (vals : list (list step * pyval)) (s : st) : st * res unit :=
+  match vals with
+  | [] => (s, Ok tt)
+  | (wr, x) :: rest =>
+      match x with
+      | PNone => write_back rest s
+      | _ => match run_steps wr (plain x) s with
+             | (s', Ok _) => write_back rest s'
+             | (s', Err e) => (s', Err e)
+             end
+      end
+  end.
+
 Fixpoint run (p : prog) (v : aval) (s : st) : st * res unit :=
   match p with
   | Done => (s, Ok tt)
@@ -312,28 +393,13 @@ Fixpoint run (p : prog) (v : aval) (s : st) : st * res unit :=
                | (s', Err e) => (s', Err e)
                end
   | If c th el => if cond_eval c v s then run th v s else run el v s
-  end.
-
-(** * getter expressions *)
-Inductive gexp :=
-| GConst (r : res pyval)
-| GIfAbsent (p : path) (d k : gexp)            (* the child at p is None ? d : k *)
-| GAttr (p : path) (a : str) (c : codec) (k : akind)
-| GPresent (p : path)                          (* child is not None, as a bool *)
-| GMap (f : pyval -> res pyval) (g : gexp)
-| GOrElse (g h : gexp).                        (* g if it is not None, else h *)
-
-Fixpoint eval (g : gexp) (s : st) : res pyval :=
-  match g with
-  | GConst r => r
-  | GIfAbsent p d k => if present p s then eval k s else eval d s
-  | GAttr p a c k => attr_get p a c k s
-  | GPresent p => Ok (PBool (present p s))
-  | GMap f g' => match eval g' s with Ok v => f v | Err e => Err e end
-  | GOrElse g' h => match eval g' s with
-                    | Ok PNone => eval h s
-                    | r => r
-                    end
+  | Keep rs k => match collect rs s with
+                 | Err e => (s, Err e)
+                 | Ok vals => match run k v s with
+                              | (s1, Ok _) => write_back vals s1
+                              | (s1, Err e) => (s1, Err e)
+                              end
+                 end
   end.
 
 (** * footprints *)
@@ -353,11 +419,13 @@ Fixpoint step_writes (x : step) : list region :=
   | SSetAttr p a _ _ | SPutAttr p a _ | SDelAttr p a => [RKey (p, Some a)]
   | SWith _ x' => step_writes x'
   end.
+Definition steps_writes (xs : list step) : list region := flat_map step_writes xs.
 Fixpoint writes (p : prog) : list region :=
   match p with
   | Done | Raise _ => []
   | Seq x k => step_writes x ++ writes k
   | If _ th el => writes th ++ writes el
+  | Keep rs k => writes k ++ flat_map (fun r => steps_writes (kp_wr r)) rs
   end.
 
 Fixpoint reads (g : gexp) : list key :=
@@ -426,6 +494,11 @@ Fixpoint simplify (g : gexp) : gexp :=
 Inductive lmode := LMust | LEnsure (init : list (str * str)).
 Record level := { lv_path : path; lv_mode : lmode; lv_absent : res pyval }.
 
+Definition chain_steps (ch : list level) : list step :=
+  map (fun l => match lv_mode l with
+                | LMust => SRequire (lv_path l)
+                | LEnsure i => SEnsure (lv_path l) i
+                end) ch.
 Fixpoint chain_prog (ch : list level) (k : prog) : prog :=
   match ch with
   | [] => k
